@@ -10,14 +10,14 @@ func init() {
 				maxN = 64
 			}
 			for n := 0; n <= maxN; n++ {
-				js = append(js, Job{Dir: "datacoding/gsm7encoding", Harness: "VH_C08_pack", Params: map[string]int{"n": n}, Weight: n, NoEnd: n == 0})
+				js = append(js, Job{Dir: "datacoding/gsm7encoding", Harness: "VH_C08_pack", Params: map[string]int{"n": n}, Weight: n, NoEnd: false})
 			}
 			maxR := 14
 			if tier == "thorough" {
 				maxR = 30
 			}
 			for n := 0; n <= maxR; n++ {
-				js = append(js, Job{Dir: "datacoding/gsm7encoding", Harness: "VH_C08_unpack_raw", Params: map[string]int{"n": n}, Weight: n, NoEnd: n == 0})
+				js = append(js, Job{Dir: "datacoding/gsm7encoding", Harness: "VH_C08_unpack_raw", Params: map[string]int{"n": n}, Weight: n, NoEnd: false})
 			}
 			js = append(js, Job{Dir: "datacoding/gsm7encoding", Harness: "VH_C08_encode_rune", Weight: 50})
 			js = append(js, Job{Dir: "datacoding/gsm7encoding", Harness: "VH_C08_decode_pair", Params: map[string]int{"n": 1}})
